@@ -122,6 +122,8 @@ def docs_stream(ctx):
         "let\n  v = \"0\";\n  w = v;\nin\nlet\n  v = \"1\";\nin\n",
         "let\n  w = \"9\";\nin\nlet\n  v = w;\nin\n",
         "let\n  inherit v;\nin\n",
+        # two-hop chain whose middle binding sits in an OUTER layer while the final name is also bound further in
+        "let\n  w = v;\n  v = \"outer\";\nin\nlet\n  v = \"inner\";\nin\n",
     ]
     bodies = [
         ("{\n  version = v;\n  name = \"x\";\n}", ["version"]),
@@ -130,6 +132,8 @@ def docs_stream(ctx):
         ("rec {\n  a = b;\n  b = c;\n  c = \"3\";\n}", ["a", "b"]),
         ("{\n  src = {\n    rev = v;\n  };\n}", ["src.rev"]),
         ("rec {\n  v = \"5\";\n  src = {\n    rev = v;\n  };\n}", ["src.rev"]),
+        ("{\n  a = w;\n  name = \"x\";\n}", ["a"]),
+        ("rec {\n  a = w;\n  v = \"inner-rec\";\n}", ["a"]),
     ]
     wrappers = [("bare", "{S}"), ("lambda", "{ pkgs }:\n{S}"), ("lambda-v", "{ v }:\n{S}"),
                 ("with-lit", "with { v = \"7\"; };\n{S}"), ("call", "pkgs.mk {S}")]
@@ -237,6 +241,14 @@ def run(ctx: fw.Ctx):
     for text, path, info in docs_stream(ctx):
         hists.append(ec.run_real(text, [("set", path, '"NEW"')], info))
         hists.append(ec.run_real(text, [("set", path, '"NEW"'), ("set", path, '"NEWER"')], info))
+    # scoping that changes between edits of one document object (a stale scope chain would show)
+    for text, ops in [
+        ("let\n  v = \"0\";\nin\nrec {\n  a = v;\n}\n", [("set", "a", '"N1"'), ("set", "v", '"2"'), ("set", "a", '"N2"')]),
+        ("rec {\n  a = v;\n  v = \"1\";\n}\n", [("set", "a", '"N1"'), ("rm", "v"), ("set", "a", '"N2"')]),
+        ("let\n  v = \"0\";\nin\n{\n  a = v;\n}\n", [("set", "a", '"N1"'), ("set", "@v", '"9"'), ("rm", "@v"), ("set", "a", '"N2"')]),
+        ("rec {\n  a = b;\n  b = c;\n  c = \"3\";\n}\n", [("set", "a", '"N1"'), ("set", "b", '"mid"'), ("set", "a", '"N2"')]),
+    ]:
+        hists.append(ec.run_real(text, ops, {"wrapper": "bare", "history": True}))
     stride, nrand = (11, 500) if ctx.quick else (2, 8000)
     hists += ep.build_stream(ctx, stride, nrand, 8, enum_offset=6)
     # The edit model's resolver sees the let layers and the `rec` self scope; scopes inherited from a
